@@ -321,6 +321,10 @@ class Gen:
             return v.output.dtype == 2 and not self._is_int(v)
         return v.output.dtype == "real"
 
+    def may_be_zero(self, name):
+        """Scatter fills the positions it does not write with exact zeros."""
+        return any(op["op"] == "scatter" for op in prune(self.program, [name]))
+
     def _is_int(self, v):
         return any(self.types.get(n) is v for n in self.intvals)
 
@@ -403,7 +407,10 @@ class Gen:
             a, b = self.pick(fv), self.pick(fv)
             if a is None or b is None:
                 return None
-            return self.emit({"op": "binary", "fn": r.choice(fam["binary"]), "a": a, "b": b})
+            fn = r.choice(fam["binary"])
+            if fn == "truediv" and self.may_be_zero(b):
+                fn = "mul"  # x/0 and 0/0 are arithmetic edges, not rewrite questions
+            return self.emit({"op": "binary", "fn": fn, "a": a, "b": b})
         if kind == "pyop":
             if self.family_name == "bool":
                 return None
@@ -416,7 +423,10 @@ class Gen:
             a = self.pick(fv)
             if a is None:
                 return None
-            return self.emit({"op": "unary", "fn": r.choice(fam["unary"]), "a": a})
+            fn = r.choice(fam["unary"])
+            if fn == "reciprocal" and self.may_be_zero(a):
+                fn = "sqrt"
+            return self.emit({"op": "unary", "fn": fn, "a": a})
         if kind == "reduce":
             a = self.pick(lambda v: fv(v) and any(d.dtype != "real" for d in v.inputs.values()))
             if a is None:
